@@ -31,6 +31,16 @@ CLAIMED = {
         "impls anywhere in the crate (all features).",
         design_ref="DESIGN.md §4 C17",
     ),
+    "C18": dict(
+        technique=TECH + "compiler-evaluated constant tables (const_eval) checked exhaustively for "
+        "inverse/RFC 4648 agreement; sibling decoders must reference the same table constant",
+        text="Decides the table clause of C18 exhaustively: every entry of the Base16 (256), Base32hex "
+        "(128+32) and Base64 (128+64) alphabets, as evaluated by the compiler, is checked: decode is the "
+        "inverse of encode, encode equals RFC 4648, nothing else decodes; all decoder/encoder siblings "
+        "read those same constants. The incremental state machines, padding and chunking independence "
+        "are value-level and not decided.",
+        design_ref="DESIGN.md §4 C18",
+    ),
 }
 
 NOT_APPLICABLE = {
